@@ -35,7 +35,12 @@ def overlay_of(patch):
     wt = os.path.join(tmp, "wt")
     try:
         subprocess.check_call(["git", "-C", REPO, "worktree", "add", "--detach", "-q", wt, "HEAD"])
-        subprocess.check_call(["git", "-C", wt, "apply", os.path.abspath(patch)])
+        for extra in ([], ["-C1"], ["-C0", "--unidiff-zero"]):
+            r = subprocess.run(["git", "-C", wt, "apply"] + extra + [os.path.abspath(patch)], capture_output=True)
+            if r.returncode == 0:
+                break
+        else:
+            raise RuntimeError("patch does not apply to /repo HEAD: %s" % patch)
         names = subprocess.check_output(["git", "-C", wt, "diff", "--name-only"]).decode().split()
         ov = {}
         for n in names:
